@@ -3,7 +3,8 @@
 (* the cheaters.  Schedule: dealer keys -> session A (commit, package, sign)*)
 (* [-> concurrent session B of the same signers] -> the adversary fills     *)
 (* every share slot of A with the honest share or a wrong one (off by d,    *)
-(* negated, zero, another signer's share, the signer's share from session B)*)
+(* negated, zero, another signer's share, the signer's share from session B,*)
+(* a share made with negated nonces)                                        *)
 (* -> standalone share verification of every slot -> aggregate in the three *)
 (* detection modes -> verify whatever was released.                         *)
 EXTENDS Frost, Json
@@ -78,6 +79,7 @@ KindsFor(i) ==
   \cup (IF "zero"  \in Kinds THEN {<<"zero", 0>>} ELSE {})
   \cup (IF "other" \in Kinds THEN {<<"other", j>> : j \in SSet \ {i}} ELSE {})
   \cup (IF UseB THEN {<<"sessB", 0>>} ELSE {})
+  \cup (IF "negnonce" \in Kinds THEN {<<"negnonce", 0>>} ELSE {})
 
 Tamper ==
   /\ pc[1] = "tamper"
@@ -96,7 +98,18 @@ Tamper ==
                [] kd[1] = "sessB" ->
                     /\ UNCHANGED fvars
                     /\ sc' = [sc EXCEPT !.slot = (i :> <<"zB", i>>) @@ old, !.kind = (i :> kd) @@ sc.kind]
-  /\ pc' = IF LastK(pc[2]) THEN <<"vshare", 1>> ELSE <<"tamper", pc[2] + 1>>
+               [] kd[1] = "negnonce" ->
+                    /\ ActNegNonces(<<"nonX", i>>, <<"nonA", i>>)
+                    /\ sc' = [sc EXCEPT !.slot = (i :> <<"s", i>>) @@ old, !.kind = (i :> kd) @@ sc.kind]
+          /\ pc' = IF kd[1] = "negnonce" THEN <<"tamper2", pc[2]>>
+                   ELSE IF LastK(pc[2]) THEN <<"vshare", 1>> ELSE <<"tamper", pc[2] + 1>>
+
+\* second half of the "negnonce" kind: the signer signs with the negated nonces
+Tamper2 ==
+  /\ pc[1] = "tamper2"
+  /\ LET i == sc.S[pc[2]] IN ActSign(<<"s", i>>, PKGA, <<"nonX", i>>, <<"kp", i>>)
+  /\ Go(IF LastK(pc[2]) THEN <<"vshare", 1>> ELSE <<"tamper", pc[2] + 1>>)
+  /\ UNCHANGED sc
 
 StartTamper ==
   /\ pc[1] = "starttamper"
@@ -130,7 +143,7 @@ Next == KeyGen \/ MakeKp \/ Choose
         \/ DoPackage("packageB", PKGB, "commB", MsgB, <<"signA", 1>>)
         \/ DoSign("signA", "zA", PKGA, "nonA", IF UseB THEN <<"signB", 1>> ELSE <<"starttamper", 0>>)
         \/ DoSign("signB", "zB", PKGB, "nonB", <<"starttamper", 0>>)
-        \/ StartTamper \/ Tamper \/ DoVerifyShare \/ DoAggregate \/ DoVerify
+        \/ StartTamper \/ Tamper \/ Tamper2 \/ DoVerifyShare \/ DoAggregate \/ DoVerify
 
 Spec == Init /\ [][Next]_vars
 
